@@ -37,7 +37,7 @@ def select(fams):
     return sel
 
 
-def run_families(repo, fams, tier, tag, jobs=16, timeout_s=1500):
+def run_families(repo, fams, tier, tag, jobs=16, timeout_s=600):
     t0 = time.time()
     res = {"failed": [], "undecided": [], "checks": 0, "harnesses": [], "bounded": True,
            "bounds": "concrete shapes named in each harness (CxR <= 3x3 / 4x1), u8 or drop-ledger cells, symbolic indices, probe cells, capacity mode and drain splits; loops unwound 8 times with unwinding assertions",
